@@ -28,7 +28,7 @@ def analyze(ctx, want):
     # ---- C03.a initial partition ---------------------------------------------------------------
     ip = F.fn(r"Minimizer::calculate_initial_partition$")
     ctx.analysed_fn(ip)
-    ex, paths = run_fn(ip, F, LogModel())
+    ex, paths = run_fn(ip, F, LogModel(), desugar=None)   # position()/binary_search() of the terminal list are read as terms here
     seen = set()
     for p in paths:
         ins = p.calls(r"BTreeSet::<.*StateID>::insert$")
@@ -84,20 +84,37 @@ def analyze(ctx, want):
             ok = v[0] == "adt" and v[3][0] == ("int", 0) and "dfa.states" in S.fstr(v[3][1]) and "len" in S.fstr(v[3][1])
             ob("C03.a", "loop-covers-all-states", ok, "range %s" % S.fstr(v)[:80], ip.loc())
             break
-    tm = [e for p in paths[:1] for e in p.events if e[0] == "call" and re.search(r"Iterator>::filter_map::", e[2])]
+    # the terminal list: the labels of the accepting entries of dfa.end_states (filter_map, or filter + map), sorted and
+    # deduplicated exactly once, nothing else done to it
+    sel = [e for p in paths[:1] for e in p.events if e[0] == "call" and re.search(r"Iterator>::(filter_map|filter|map)::", e[2])]
     srt = [e for p in paths[:1] for e in p.events if e[0] == "call" and re.search(r"slice::<impl \[.*\]>::sort$|::sort_unstable$", e[2])]
     ddp = [e for p in paths[:1] for e in p.events if e[0] == "call" and re.search(r"Vec::<.*>::dedup$", e[2])]
-    ob("C03.a", "terminal-list-sorted-and-deduplicated", len(tm) == 1 and len(srt) == 1 and len(ddp) == 1 and "dfa.end_states" in S.fstr(tm[0][3][0]),
-       "filter_map over %s, sort x%d, dedup x%d" % (S.fstr(tm[0][3][0])[:40] if tm else None, len(srt), len(ddp)), ip.loc())
+    others = [M.short_name(M.call_name(t)) for bb, t in ip.calls(r"Iterator>::(rev|skip|take|step_by|skip_while|take_while|chain|zip)\b|::(dedup_by\w*|retain|truncate|pop|remove|swap_remove|drain)$")]
+    src_ok = bool(sel) and "dfa.end_states" in S.fstr(sel[0][3][0])
+    ob("C03.a", "terminal-list-sorted-and-deduplicated", src_ok and len(srt) == 1 and len(ddp) == 1 and not others,
+       "%s over %s, sort x%d, dedup x%d, other list operations %s" % ([re.search(r"Iterator>::(\w+)", e[2]).group(1) for e in sel], S.fstr(sel[0][3][0])[:40] if sel else None, len(srt), len(ddp), others), ip.loc())
+    rows = set()
+    n_sel = 0
     for c in F.closures_of(ip):
-        if c.argc == 2 and "accept" in c.names().values():
-            ex2, ps = run_fn(c, F, LogModel())
-            rows = set()
-            for q in ret_paths(ps):
-                flag = [(cc, o) for cc, o in q.conds]
-                r = q.end[1]
-                rows.add((flag[-1][1] if flag else None, r[2] if r[0] == "adt" else "?"))
-            ob("C03.a", "terminal-list-holds-exactly-the-accepting-labels", rows == {(True, "Some"), (False, "None")}, "filter rows %s" % sorted(rows, key=str), c.loc())
+        if c.argc != 2:
+            continue
+        ex2, ps = run_fn(c, F, LogModel())
+        for q in ret_paths(ps):
+            r = q.end[1]
+            rs_ = S.fstr(r)
+            flag = [(cc, o) for cc, o in q.conds if re.search(r"arg2\)?\.0$|accept", S.fstr(cc))]
+            if r[0] == "adt" and r[1].endswith("Option") and (flag or r[2] == "None"):
+                # filter_map: Some(label) iff the accept flag is set
+                n_sel += 1
+                rows.add((flag[-1][1] if flag else None, r[2], bool(r[2] == "None" or re.search(r"arg2\)?\.1$|\bid\b", S.fstr(r[3][0])))))
+            elif re.search(r"arg2\)?\)?\.0$", rs_) and not q.conds:
+                # filter: keeps the entry iff its accept flag is set
+                n_sel += 1
+                rows.add((True, "Some", True))
+                rows.add((False, "None", True))
+            elif re.search(r"arg2\)?\.1$", rs_) and not q.conds and not c.upvar_names():
+                pass    # map: the label of the entry
+    ob("C03.a", "terminal-list-holds-exactly-the-accepting-labels", rows == {(True, "Some", True), (False, "None", True)} and n_sel >= 1, "selection rows (accept flag, kept, value is the label): %s" % sorted(rows, key=str), ip.loc())
 
     # ---- C03.b refinement only splits ----------------------------------------------------------
     sg = F.fn(r"Minimizer::split_group$")
@@ -176,10 +193,17 @@ def analyze(ctx, want):
     ob("C03.c", "signature-of-the-given-state", bool(look) and S.fstr(ex.deref_val(paths[0], look[0][3][1])) in ("state_id",) or (bool(look) and "state_id" in S.fstr(look[0][3][1])), "transitions.get(%s)" % (S.fstr(look[0][3][1]) if look else None), bt.loc())
     fgf = F.fn(r"Minimizer::find_group$")
     ex, paths = run_fn(fgf, F, LogModel())
-    for p in ret_paths(paths):
-        pos = p.calls(r"Iterator>::position::")
-        ok = len(pos) == 1 and "partition" in S.fstr(pos[0][7][0] if len(pos[0]) > 7 else pos[0][3][0])
-        ob("C03.d", "group-id-is-the-index-of-the-containing-group", ok, "position over %s" % (S.fstr(pos[0][3][0])[:40] if pos else None), fgf.loc())
+    from .common import search_table, hit_is_index_of
+    st_ = search_table(ex, paths)
+    badf = [M.short_name(M.call_name(t)) for bb, t in fgf.calls(r"Iterator>::(rev|rposition|skip|take|filter|step_by|skip_while|take_while|chain|zip)\b")]
+    ok = bool(st_["hit"]) and bool(st_["source"]) and all("partition" in x for x in st_["source"]) and not badf
+    for r, ic, p in st_["hit"]:
+        good = [c for c, o in ic if o is True and c[0] == "app" and re.search(r"BTreeSet::<.*>::contains", c[1]) and "item@" in S.fstr(c[2][0]) and "state_id" in S.fstr(c[2][1])]
+        val = r[3][0] if r[0] == "adt" and r[2] == "Some" and r[3] else r
+        ok = ok and bool(good) and hit_is_index_of(val, good[0])
+    for ic, p in st_["miss"]:
+        ok = ok and any(o is False and c[0] == "app" and re.search(r"BTreeSet::<.*>::contains", c[1]) for c, o in ic)
+    ob("C03.d", "group-id-is-the-index-of-the-containing-group", ok, "search over %s; hits %s" % (sorted(set(st_["source"])), [S.fstr(r)[:40] for r, _, _ in st_["hit"]]), fgf.loc())
     casts.analyze(ctx, {"C03.d"} & want)
 
     # ---- C03.e fixpoint ------------------------------------------------------------------------
